@@ -746,3 +746,7 @@ def run(chk, prog):
                 where(fn), "the final classification is not `tau_done >= tau_target ? INSIDE : get_output_direction(index)`",
                 function=fn["full"], construct="final classification")
     chk.floor("T3", n3, 20)
+    # ---- T4: every estimator grows by weight x cross section x path length (c02_factors.py) -------------------------
+    from . import c02_factors
+    n4 = c02_factors.rule_T4(chk, u)
+    chk.floor("T4", n4, 2)
